@@ -27,7 +27,7 @@ type c21Image struct {
 	bad string
 }
 
-func drawCodeImage(t *rapid.T) *c21Image {
+func drawCodeImage(t *rapid.T, cfg rvref.Cfg) *c21Image {
 	img := &c21Image{}
 	m := &elfgen.Model{Class64: true, Type: elfgen.ETExec, Machine: elfgen.EMRiscV}
 	nsec := 1 + uniformInt(t, 4, "nsec")
@@ -38,13 +38,16 @@ func drawCodeImage(t *rapid.T) *c21Image {
 		n := 1 + uniformInt(t, 12, "nwords")
 		var bs []byte
 		for k := 0; k < n; k++ {
-			_, w := drawInsWord(t, rv64ima)
+			_, w := drawInsWord(t, cfg)
 			bs = append(bs, wordBytes(w)...)
 		}
 		if breakIt && i == breakSec {
 			if uniformInt(t, 2, "breakKind") == 0 {
 				k := uniformInt(t, n, "badIdx")
 				bad := []uint32{0x00000000, 0xffffffff, 0x0000007f, 0x00000057}[uniformInt(t, 4, "badWord")]
+				if rvref.Decode(bad, cfg) != nil {
+					bad = 0
+				}
 				copy(bs[4*k:], wordBytes(bad))
 				img.bad = fmt.Sprintf("undecodable word %08x at %x", bad, addr+uint64(4*k))
 			} else {
@@ -92,21 +95,27 @@ func drawCodeImage(t *rapid.T) *c21Image {
 
 func TestC21(t *testing.T) {
 	col := ev.New("C21", "rapid: code images of 1-4 executable sections (adjacent or apart, file order independent of "+
-		"address order) filled with valid RV64IMA words from an independent encoder; with probability 1/3 one position "+
+		"address order) filled with valid words of the configuration (RV64IMA in 3/4 of the cases, any of the 8 otherwise) from an independent encoder; with probability 1/3 one position "+
 		"holds an undecodable word or the section is cut to a length that is not a multiple of 4; loaded through the ELF "+
 		"writer and the real elf.MachineCode. parser.Parse must fail iff such a position exists, else yield exactly one "+
 		"instruction per 4 bytes of every block in address order with the bytes at its address, type/name/text of the "+
 		"front end and effects that evaluate like the front end's lifting under 2 valuations (same kind/key/width). "+
 		"non-trivial = >=2 blocks and >=8 instructions, or an error located outside the first block; distinct by image")
 	defer col.Flush()
-	prs, msg := rvParser(rv64ima)
-	if msg != "" {
+	if _, msg := rvParser(rv64ima); msg != "" {
 		t.Fatalf("%s", msg)
 	}
 
 	rapid.Check(t, func(t *rapid.T) {
 		col.Case()
-		img := drawCodeImage(t)
+		// mostly the configuration the program uses, sometimes any of the 8
+		cfg := rv64ima
+		if uniformInt(t, 4, "anyCfg") == 0 {
+			cfg = drawCfg(t)
+		}
+		prs, _ := rvParser(cfg)
+		col.Class("cfg/" + cfg.String())
+		img := drawCodeImage(t, cfg)
 		file, _ := img.model.Bytes()
 		name := writeScratch(file)
 		ep, err := elf.NewParser(name)
